@@ -33,8 +33,14 @@ def random_case(prop, rng, tier):
             theme['header_color'] = rng.choice(COLORS + [None])          # None = plain text
         if theme['level_colors'] and rng.random() < 0.3:
             theme['level_colors'][rng.randrange(len(theme['level_colors']))] = None
+    if rng.random() < 0.3:
+        # two projects numbered alike: tasks of the other WBS take ids of tasks of this one
+        mine = [t['id'] for t in tasks if not t['other'] and not t['detached']]
+        for t in tasks:
+            if t['other'] and t['parent'] is None and mine:
+                t['id'] = rng.choice(mine)
     return {'tasks': tasks, 'links': links, 'fields': fields, 'children': rng.random() < 0.7, 'theme': theme,
-            'what': rng.choice(['wbs', 'task', 'list']), 'usage': rng.random() < 0.2}
+            'what': rng.choice(['wbs', 'task', 'list', 'preds']), 'usage': rng.random() < 0.2}
 
 
 def build(case):
@@ -50,12 +56,18 @@ def build(case):
             if t.get('detached') and i > 0:
                 pass            # a task (tree) that belongs to no WBS: links to it leave the WBS
             else:
-                (w2 if t['other'] else w) // o
+                try:
+                    (w2 if t['other'] else w) // o
+                except RuntimeError:
+                    pass        # an id already taken in that WBS: the task stays outside every WBS
         else:
             try:
                 objs[t['parent']] // o
             except RuntimeError:
-                w // o
+                try:
+                    w // o
+                except RuntimeError:
+                    pass
         objs.append(o)
     for a, b in case['links']:
         if a != b:
@@ -70,6 +82,16 @@ def execute(prop, case):
     from pjplan.task import _Repr, EMPTY_TASK_ID
     from pjplan.utils import GREY, RED, BLUE, TEAL, YELLOW, PINK
     w, w2, objs = build(case)
+    hub = None
+    if case['what'] == 'preds':
+        # a dependency list: it may hold tasks of several WBSs, hence different tasks with one id
+        from pjplan import Task
+        hub = Task(987654, 'hub')
+        try:
+            hub.predecessors = [o for o in objs if o.wbs is not None and not o.predecessors][:5]
+        except RuntimeError:
+            pass
+        objs = objs + [hub]
     allobjs = objs + [w._root(), w2._root()]
     uid = {id(o): u for u, o in enumerate(allobjs)}
     wb = {id(w): 0, id(w2): 1}
@@ -77,6 +99,8 @@ def execute(prop, case):
         shown = list(w.roots)
     elif case['what'] == 'task':
         shown = [objs[0]]
+    elif case['what'] == 'preds':
+        shown = list(hub.predecessors)
     else:
         shown = [o for o in objs[::2]]
     rec = {'fam': 'print', 'shown': [uid[id(o)] for o in shown], 'children': case['children']}
@@ -140,7 +164,7 @@ def execute(prop, case):
         # the public entry points (repr(...), .print(...)) of the WBS, the task or the task list must show the very same sheet
         import io
         import contextlib
-        target = w if case['what'] == 'wbs' else (objs[0] if case['what'] == 'task' else objs[0].children)
+        target = w if case['what'] == 'wbs' else (objs[0] if case['what'] == 'task' else (hub.predecessors if case['what'] == 'preds' else objs[0].children))
         want_target = shown if case['what'] != 'list' else list(objs[0].children)
         try:
             buf = io.StringIO()
